@@ -19,7 +19,7 @@ META = {
                    "nodes. Bernoulli marginal = Phi(m / sqrt(1+v)) and the conditional distributions' parameters / "
                    "expected_log_prob structure are proved by congruence on the erf / log atoms; SoftmaxLikelihood class "
                    "probabilities = softmax of the mixed latent features in the documented num_data x num_tasks layout (also n == num_features).",
-    "bounds": {"quick": "num_locs in {1,2,3}: all degrees; num_locs 4..5: degrees <= 5; batch shapes (), (2,)",
+    "bounds": {"quick": "num_locs in {1,2,3}: all degrees; num_locs 4..5: degrees <= 5; batch shapes (), (2,); Laplace / Student-t / Beta conditionals un-batched (n=2) and with likelihood batch (2,) on latent values (2, 2)",
                "thorough": "num_locs in {1..5}: all degrees; num_locs in {8,20}: degrees <= 7"},
     "outside": ["accuracy of log_normal_cdf against log Phi and of its derivative against phi/Phi (needs verified bounds on erfc; no "
                 "solver theory): only concrete witnesses on each branch are reported (not solver verdicts)",
